@@ -9,6 +9,10 @@ spaces and models), one other object, one Interface, and the files a.csv, d.csv,
 `sub/../a.csv`, `sub/./a.csv` ...), run on the real modelx and on the Lean model `MxModel.IOSpec`
 (theorems in Props/C18.lean).
 
+The registry of file objects (IOManager.ios: which key a file is filed under, relative and ABSOLUTE paths, the
+path setter in all four directions) is compared on every stream with `MxModel.IOKeys` (commands kclaim / kmove /
+kdrop / kobs of the same driver layer).
+
 Nothing is answered in the library's place: operations through the handles of CLOSED models and of
 DELETED spaces are performed for real and what modelx does is the observation (a closed model goes
 on working - it only left the registry -, a deleted space raises DeletedObjectError).  The harness
